@@ -548,6 +548,22 @@ func (a *Actor) SubmitSealed(ph *types.WorkObject, o MineOpts) (*Block, error) {
 	return b, nil
 }
 
+// ConversionTraffic submits 0-4 conversions of both directions with generated amounts (from
+// dust to far beyond the running average) and slip bounds.
+func (a *Actor) ConversionTraffic(t *rapid.T) {
+	if a.ZoneNumber() < params.TimeToStartTx+1 {
+		return
+	}
+	n := rapid.IntRange(0, 4).Draw(t, "nconv")
+	for i := 0; i < n; i++ {
+		kinds := []string{"quai2qi", "quai2qi"}
+		if us, _ := a.spendable(); len(us) > 0 {
+			kinds = append(kinds, "qi2quai", "qi2quai")
+		}
+		a.submit(t, rapid.SampledFrom(kinds).Draw(t, "convkind"))
+	}
+}
+
 // AdversarialTraffic feeds the pool transactions that a block must not contain or that compete
 // with each other: underpriced, nonce-gapped, two Qi spends of one output, a reverting call.
 func (a *Actor) AdversarialTraffic(t *rapid.T) {
